@@ -37,6 +37,7 @@ func TestCheck(t *testing.T) {
 	r.Assume("a handler that is not part of the repository and edits the request object before passing it to WriteMsg is outside the quantifier (the ResponseWriter contract makes the request it is given the client's request); the repository's own middlewares are inside, hence the ecs-cache phase")
 	r.Assume("json-wire paths: GET /resolve?...&ct=application/dns-message returns wire format from the JSON endpoint; the client cannot send an OPT there (the server builds the query, with an OPT of its own only for do=1), " +
 		"so the size bound, the truncation rules and the padding / keep-alive rules are judged, the OPT-echo rule is not")
+	r.Assume("shutdown phase: the handler parks queries on dedicated TCP / DoT servers, the driver starts Shutdown, waits until the listener refuses connections (the server marks itself as stopped before closing its listeners), releases the handlers and judges the responses by the ordinary rules")
 	r.Assume("a configured maximum of 0 (the zero value of ConfigDNS.MaxUDPRespSize, which is all a direct user of the package gets; its doc comment names no default) is a configured maximum like any other: the statement's formula gives the bound max(512, min(advertised, 0)) = 512")
 	r.Assume("silent-handler cells: the handler returns nil or an error WITHOUT writing; the plain UDP/TCP/DoT servers document silence / closing the connection for nil and DoH answers HTTP 500, which are recorded as no-response; every DNS response a server generates itself (SERVFAIL) is judged by the OPT, size, padding and keep-alive rules like any other")
 	r.Assume("the client's UDP size = the CLASS field of the request's OPT, verbatim (normalize documents reqOpt.UDPSize())")
@@ -194,6 +195,9 @@ func TestCheck(t *testing.T) {
 	r.Bucket("shared_cloner:clones_handed_out_for_class_A", granted)
 	r.Bucket("shared_cloner:class_B_responses_built_on_an_OPT_disposed_after_class_A", reused)
 
+	// Queries answered while the server shuts down.
+	e.runShutdown(len(cells)+200_000, r.N(3, 12))
+
 	// The ecs-cache histories.
 	nHist := r.N(600, 4000)
 	if err = e.runECS(ecsP, len(cells)+100_000, nHist, 6); err != nil {
@@ -293,6 +297,13 @@ func TestCheck(t *testing.T) {
 	}
 	r.Require("json_wire:handler-response-larger-than-65535:judged", 12)
 	r.Require("json_wire:handler-response-within-16-of-65535:judged", 40)
+	for _, f := range []string{famUDP, famTCP, famDoT, famDoQ, famDoH, famDCUDP, famDCTCP} {
+		r.Require("silent_handler:timeout:answered:"+f+":query-with-opt", 6)
+		r.Require("silent_handler:deadline:answered:"+f+":query-with-opt", 6)
+	}
+	for _, f := range []string{famTCP, famDoT} {
+		r.Require("shutdown:answered-after-shutdown-began:"+f+":query-without-keepalive", int64(r.N(8, 30)))
+	}
 	r.Require("udp_configured_max_0:advertised>512-and-answer>512:judged", 60)
 	r.Require("keepalive_returned:"+famTCP, 5)
 	r.Require("keepalive_returned:"+famDoT, 5)
